@@ -2,7 +2,8 @@
     lock step (same labware, same outcomes, records equal up to trough positions); the generic base
     worklist refuses operations that need device-specific numbering. *)
 From Robo Require Import Prelude Str Wells Utils Labware Tips Records Partition Params Worklist EvoCmd
-  Program Invariants WellsProofs LabwareProofs.
+  Program Invariants WellsProofs.
+(* self-contained w.r.t. the labware loops: does not import LabwareProofs *)
 
 (* ================================================================== definitions used by Props/C16.v *)
 
@@ -57,26 +58,6 @@ Definition state_sim (s1 s2 : state) : Prop :=
   w_diti (st_wl s1) = w_diti (st_wl s2) /\
   w_dev (st_wl s1) = Evo /\ w_dev (st_wl s2) = Fluent /\
   Forall2 (rec_sim (troughs_of (st_lw s1))) (w_recs (st_wl s1)) (w_recs (st_wl s2)).
-
-(** the destination ids of a [distribute] are ids of the destination labware *)
-Definition dist_ids_known (lws : list labware) (o : op) : Prop :=
-  match o with
-  | ODistribute _ kd dwells _ =>
-      forall Ld, nth_error lws kd = Some Ld ->
-      forall w, In w (flattenF dwells) -> well_index (lw_geom Ld) w <> None
-  | _ => True
-  end.
-
-(** weaker: the EVO numbering accepts the destination ids of a [distribute], or the Fluent numbering
-    refuses them too (the remaining case, Fluent accepts what EVO refuses, is a genuine discrepancy) *)
-Definition dist_ids_agree (lws : list labware) (o : op) : Prop :=
-  match o with
-  | ODistribute _ kd dwells _ =>
-      forall Ld, nth_error lws kd = Some Ld ->
-      (exists ps, positions_of Evo (lw_geom Ld) (flattenF dwells) = Ok ps) \/
-      (exists e, positions_of Fluent (lw_geom Ld) (flattenF dwells) = Err e)
-  | _ => True
-  end.
 
 (** records that carry no well position *)
 Definition plain_rec (r : srec) : Prop :=
@@ -182,44 +163,6 @@ Proof.
     intro Ht. rewrite (Hp Ht), (Heq Ht). reflexivity.
 Qed.
 
-Lemma evo_position_err g s e : evo_position g s = Err e -> e = EReject.
-Proof.
-  unfold evo_position. destruct (parse_id s) as [[l n]|]; [|congruence].
-  destruct (single_letter_row g l); [destruct (column_index g n)|]; congruence.
-Qed.
-
-Lemma fluent_position_err g s e : fluent_position g s = Err e -> e = EReject.
-Proof.
-  unfold fluent_position. destruct (parse_id s) as [[l n]|]; [|congruence].
-  destruct (column_index g n); [|congruence]. destruct (is_trough g); [congruence|].
-  destruct (str_head s) as [a|]; [|congruence].
-  destruct (single_letter_row g (String a EmptyString)); congruence.
-Qed.
-
-Lemma positions_of_err d g ws e : d <> BaseDev -> positions_of d g ws = Err e -> e = EReject.
-Proof.
-  intro Hd. induction ws as [|w r IH]; cbn [positions_of]; [discriminate|].
-  destruct (device_position d g w) as [p|e1] eqn:E1.
-  - destruct (positions_of d g r) as [ps|e2]; [discriminate|]. intro H. injection H as <-. apply IH. reflexivity.
-  - intro H. injection H as <-. destruct d; cbn [device_position] in E1;
-      [eapply evo_position_err; exact E1|eapply fluent_position_err; exact E1|congruence].
-Qed.
-
-Lemma positions_of_evo_ok g ws : forall ps1, positions_of Evo g ws = Ok ps1 ->
-  exists ps2, positions_of Fluent g ws = Ok ps2 /\
-    length ps1 = length ws /\ length ps2 = length ws /\ (is_trough g = false -> ps1 = ps2).
-Proof.
-  induction ws as [|w r IH]; intros ps1 H; cbn [positions_of] in *.
-  - injection H as <-. exists []. repeat split.
-  - cbn [device_position] in *.
-    destruct (evo_position g w) as [p1|e1] eqn:E1; [|discriminate].
-    destruct (positions_of Evo g r) as [qs1|e1] eqn:E2; [|discriminate].
-    injection H as <-. destruct (IH qs1 eq_refl) as (qs2 & F2 & L1 & L2 & Heq).
-    destruct (evo_ok_fluent_ok g w p1 E1) as (p2 & F1 & Hp).
-    exists (p2 :: qs2). rewrite F1, F2. cbn [length]. repeat split; try congruence.
-    intro Ht. rewrite (Hp Ht), (Heq Ht). reflexivity.
-Qed.
-
 (* ================================================================== the base type *)
 
 Lemma emit_wells_base asp w L items k : w_dev w = BaseDev ->
@@ -316,17 +259,24 @@ Lemma positions_of_base g ws :
   positions_of BaseDev g ws = match ws with [] => Ok [] | _ => Err ECompat end.
 Proof. destruct ws as [|w r]; reflexivity. Qed.
 
-(** [distribute] computes the positions before anything else: refused without any effect *)
+(** [distribute] computes the positions right after its argument checks: refused without any effect *)
 Lemma base_distribute s ks kd dwells a Ls Ld v xv :
   w_dev (st_wl s) = BaseDev ->
   nth_error (st_lw s) ks = Some Ls -> nth_error (st_lw s) kd = Some Ld ->
   g_vrows (lw_geom Ls) = Some v -> rvol_x (d_volume a) = Some xv -> xv <> XNaN ->
   (match xv with XQ q => Qgtb q (w_max (st_wl s)) | XPInf => true | _ => false end) = false ->
   flattenF dwells <> [] ->
+  (forall w, In w (flattenF dwells) -> lw_index Ld w <> None) ->
   distribute s ks kd dwells a = (s, Some ECompat).
 Proof.
-  intros Hd Hs Hk Hv Hx Hn Hm Hw. unfold distribute. rewrite Hs, Hk, Hv, Hx.
+  intros Hd Hs Hk Hv Hx Hn Hm Hw Hkn. unfold distribute. rewrite Hs, Hk, Hv, Hx.
   cbv zeta. rewrite Hd, positions_of_base.
+  assert (Eu : existsb (fun x => match lw_index Ld x with None => true | Some _ => false end)
+                       (flattenF dwells) = false).
+  { destruct (existsb _ (flattenF dwells)) eqn:E; [|reflexivity].
+    apply existsb_exists in E. destruct E as (w & Hin & Hb). specialize (Hkn w Hin).
+    destruct (lw_index Ld w); [discriminate|congruence]. }
+  rewrite Eu.
   destruct (flattenF dwells) as [|w0 r]; [congruence|].
   destruct xv as [q| | |]; try congruence; rewrite Hm; reflexivity.
 Qed.
@@ -340,7 +290,8 @@ Proof.
   destruct (g_vrows (lw_geom Ls)) as [v|]; [|reflexivity].
   destruct (rvol_x (d_volume a)) as [xv|]; [|reflexivity].
   rewrite Hd, positions_of_base.
-  destruct (flattenF dwells) as [|w0 r]; cbn [map sort_Z fold_left];
+  destruct (existsb (fun x => match lw_index Ld x with None => true | Some _ => false end) (flattenF dwells));
+    destruct (flattenF dwells) as [|w0 r]; cbn [map sort_Z fold_left];
     destruct xv as [q| | |]; try reflexivity; try (destruct (Qgtb q (w_max (st_wl s))); reflexivity).
 Qed.
 
@@ -424,45 +375,113 @@ Qed.
 
 Definition lsig (L : labware) : string * geom := (lw_name L, lw_geom L).
 
-Lemma rem_run_indexed L items L' e : rem_run L items L' e -> e = None ->
-  forall it, In it items -> exists i, lw_index L (fst it) = Some i.
+Lemma zip_In {A B} (l1 : list A) : forall (l2 : list B) a b, In (a, b) (zip l1 l2) -> In a l1 /\ In b l2.
 Proof.
-  intro H. induction H as [L|L w x rest Hi|L w x rest i Hi Hx|L w v rest i Hi Hg
-                           |L w v rest i L' e Hi Hg Hr IH]; intros He it Hin; try discriminate.
-  - contradiction.
-  - destruct Hin as [<-|Hin]; [exists i; exact Hi|].
-    destruct (rem_one_frame L i v) as (_ & Fg & _).
-    rewrite <- (lw_index_geom _ _ _ Fg). apply IH; assumption.
+  induction l1 as [|x r IH]; intros [|y s] a b H; cbn [zip In] in H; try contradiction.
+  destruct H as [H|H].
+  - injection H as <- <-. split; left; reflexivity.
+  - destruct (IH s a b H) as [H1 H2]. split; right; assumption.
+Qed.
+
+Lemma zip_In_l {A B} (l1 : list A) : forall (l2 : list B) a, length l2 = length l1 -> In a l1 ->
+  exists b, In (a, b) (zip l1 l2).
+Proof.
+  induction l1 as [|x r IH]; intros [|y s] a Hl Hin; cbn [length] in Hl; try discriminate; [contradiction|].
+  destruct Hin as [<-|Hin].
+  - exists y. left. reflexivity.
+  - destruct (IH s a (eq_add_S _ _ Hl) Hin) as [b Hb]. exists b. right. exact Hb.
+Qed.
+
+Lemma prep_wells_vols_zip wells vols wv : prep_wells_vols wells vols = Ok wv ->
+  exists vs, wv = zip (flattenF wells) vs /\ length vs = length (flattenF wells).
+Proof.
+  unfold prep_wells_vols. intro H.
+  destruct (length (broadcast (flattenF vols) (length (flattenF wells))) =? length (flattenF wells)) eqn:E1;
+    cbn [negb] in H; [|discriminate].
+  destruct (forallb vol_ok (broadcast (flattenF vols) (length (flattenF wells)))); cbn [negb] in H; [|discriminate].
+  injection H as <-. eexists. split; [reflexivity|]. apply Nat.eqb_eq. exact E1.
 Qed.
 
 Lemma lw_index_known L w i : lw_index L w = Some i -> well_index (lw_geom L) w <> None.
-Proof. unfold lw_index. destruct (well_index (lw_geom L) w); [discriminate|discriminate]. Qed.
+Proof. unfold lw_index. destruct (well_index (lw_geom L) w); discriminate. Qed.
+
+Lemma lw_index_lsig L1 L2 w : lsig L1 = lsig L2 -> lw_index L1 w = lw_index L2 w.
+Proof. unfold lsig, lw_index. intro H. injection H as _ ->. reflexivity. Qed.
+
+(** the loops keep name and geometry, whatever the outcome *)
+Lemma remove_loop_lsig items : forall L, lsig (fst (remove_loop L items)) = lsig L.
+Proof.
+  induction items as [|[w x] rest IH]; intro L; cbn [remove_loop]; [reflexivity|].
+  destruct (lw_index L w) as [i|]; [|reflexivity].
+  destruct x as [v| | |]; try reflexivity.
+  destruct (Qltb (Qred (vol_at L i - v)) (lw_min L)); [reflexivity|].
+  rewrite IH. reflexivity.
+Qed.
+
+Lemma add_loop_lsig items : forall L, lsig (fst (add_loop L items)) = lsig L.
+Proof.
+  induction items as [|[[w x] oc] rest IH]; intro L; cbn [add_loop]; [reflexivity|].
+  destruct (lw_index L w) as [i|]; [|reflexivity].
+  destruct x as [v| | |]; try reflexivity. cbv zeta.
+  destruct (Qgtb (Qred (vol_at L i + v)) (lw_max L)); [reflexivity|].
+  rewrite IH. destruct oc as [c|]; reflexivity.
+Qed.
+
+(** an accepted loop has found every id *)
+Lemma remove_loop_known items : forall L L', remove_loop L items = (L', None) ->
+  forall it, In it items -> well_index (lw_geom L) (fst it) <> None.
+Proof.
+  induction items as [|[w x] rest IH]; intros L L' H it Hin; [contradiction|].
+  cbn [remove_loop] in H. destruct (lw_index L w) as [i|] eqn:Ei; [|discriminate].
+  destruct x as [v| | |]; try discriminate.
+  destruct (Qltb (Qred (vol_at L i - v)) (lw_min L)); [discriminate|].
+  destruct Hin as [<-|Hin]; [cbn [fst]; eapply lw_index_known; exact Ei|].
+  apply (IH _ _ H it Hin).
+Qed.
+
+Lemma add_loop_known items : forall L L', add_loop L items = (L', None) ->
+  forall it, In it items -> well_index (lw_geom L) (fst (fst it)) <> None.
+Proof.
+  induction items as [|[[w x] oc] rest IH]; intros L L' H it Hin; [contradiction|].
+  cbn [add_loop] in H. destruct (lw_index L w) as [i|] eqn:Ei; [|discriminate].
+  destruct x as [v| | |]; try discriminate. cbv zeta in H.
+  destruct (Qgtb (Qred (vol_at L i + v)) (lw_max L)); [discriminate|].
+  destruct Hin as [<-|Hin]; [cbn [fst]; eapply lw_index_known; exact Ei|].
+  pose proof (IH _ _ H it Hin) as HK. destruct oc as [c|]; exact HK.
+Qed.
 
 Lemma remove_known L wells vols label L' : remove L wells vols label = (L', None) ->
   forall w, In w (flattenF wells) -> well_index (lw_geom L) w <> None.
 Proof.
-  intros H w Hw. destruct (remove_accepted _ _ _ _ _ H) as (L1 & Hlen & _ & Hrun & _).
+  unfold remove. intros H w Hw.
+  destruct (prep_wells_vols wells vols) as [wv|e0] eqn:Ep; [|discriminate].
+  destruct (prep_wells_vols_zip _ _ _ Ep) as (vs & -> & Hlen).
+  destruct (remove_loop L (zip (flattenF wells) vs)) as [L1 [e|]] eqn:El; [discriminate|].
   destruct (zip_In_l _ _ w Hlen Hw) as [x Hx].
-  destruct (rem_run_indexed _ _ _ _ Hrun eq_refl _ Hx) as [i Hi]. cbn [fst] in Hi.
-  eapply lw_index_known. exact Hi.
+  apply (remove_loop_known _ _ _ El (w, x) Hx).
 Qed.
 
 Lemma add_known L wells vols label comps L' : add L wells vols label comps = (L', None) ->
   forall w, In w (flattenF wells) -> well_index (lw_geom L) w <> None.
 Proof.
-  intros H w Hw. destruct (add_accepted _ _ _ _ _ _ H) as (items & L1 & Hmap & Hlen & _ & Hrun & _).
-  destruct (zip_In_l _ _ w Hlen Hw) as [x Hx]. rewrite <- Hmap in Hx.
-  apply in_map_iff in Hx. destruct Hx as (it & Hit & Hin).
-  destruct (add_run_indexed _ _ _ _ Hrun eq_refl it Hin) as [i Hi]. rewrite Hit in Hi. cbn [fst] in Hi.
-  eapply lw_index_known. exact Hi.
+  unfold add. intros H w Hw.
+  destruct (prep_wells_vols wells vols) as [wv|e0] eqn:Ep; [|discriminate].
+  destruct (prep_wells_vols_zip _ _ _ Ep) as (vs & -> & Hlen).
+  match type of H with context [negb ?b] => destruct b eqn:Ec end; cbn [negb] in H; [|discriminate].
+  apply Nat.eqb_eq in Ec.
+  match type of H with context [add_loop L ?it] => set (items := it) in * end.
+  destruct (add_loop L items) as [L1 [e|]] eqn:El; [discriminate|].
+  destruct (zip_In_l _ _ w Hlen Hw) as [x Hx].
+  destruct (zip_In_l _ _ (w, x) Ec Hx) as [c Hc].
+  apply (add_loop_known _ _ _ El (w, x, c)). subst items.
+  apply in_map_iff. exists ((w, x), c). split; [reflexivity|exact Hc].
 Qed.
 
 Lemma remove_lsig L wells vols label : lsig (fst (remove L wells vols label)) = lsig L.
 Proof.
   unfold remove. destruct (prep_wells_vols wells vols) as [wv|e0]; [|reflexivity].
-  destruct (remove_loop L wv) as [L1 [e|]] eqn:El; cbn [fst];
-    apply remove_loop_run, rem_run_frame in El; destruct El as (Fn & Fg & _);
-    unfold lsig, log; cbn [lw_name lw_geom set_hist]; rewrite Fn, Fg; reflexivity.
+  pose proof (remove_loop_lsig wv L) as Hl.
+  destruct (remove_loop L wv) as [L1 [e|]]; cbn [fst] in *; exact Hl.
 Qed.
 
 Lemma add_lsig L wells vols label comps : lsig (fst (add L wells vols label comps)) = lsig L.
@@ -470,9 +489,8 @@ Proof.
   unfold add. destruct (prep_wells_vols wells vols) as [wv|e0]; [|reflexivity].
   destruct (negb _); [reflexivity|].
   match goal with |- context [add_loop L ?it] => set (items := it) end.
-  destruct (add_loop L items) as [L1 [e|]] eqn:El; cbn [fst];
-    apply add_loop_run, add_run_frame in El; destruct El as (Fn & Fg & _);
-    unfold lsig, log; cbn [lw_name lw_geom set_hist]; rewrite Fn, Fg; reflexivity.
+  pose proof (add_loop_lsig items L) as Hl.
+  destruct (add_loop L items) as [L1 [e|]]; cbn [fst] in *; exact Hl.
 Qed.
 
 Lemma condense_log_lsig L n label : lsig (condense_log L n label) = lsig L.
@@ -980,12 +998,9 @@ Proof.
 Qed.
 
 Lemma distribute_sim s1 s2 ks kd dwells a : ssim s1 s2 ->
-  (forall Ld, nth_error (st_lw s1) kd = Some Ld ->
-   (exists ps, positions_of Evo (lw_geom Ld) (flattenF dwells) = Ok ps) \/
-   (exists e, positions_of Fluent (lw_geom Ld) (flattenF dwells) = Err e)) ->
   osim (distribute s1 ks kd dwells a) (distribute s2 ks kd dwells a).
 Proof.
-  intros H Hk. pose proof H as (Hlw & HS & Hw).
+  intro H. pose proof H as (Hlw & HS & Hw).
   pose proof Hw as (Hmax & Hauto & Hdi & Hd1 & Hd2 & Hrecs).
   unfold distribute. rewrite <- Hlw. cbv zeta.
   destruct (nth_error (st_lw s1) ks) as [Ls|] eqn:ELs; [|apply osim_same; exact H].
@@ -993,13 +1008,19 @@ Proof.
   destruct (g_vrows (lw_geom Ls)) as [v|]; [|apply osim_same; exact H].
   destruct (rvol_x (d_volume a)) as [xv|]; [|apply osim_same; exact H].
   rewrite <- Hmax, Hd1, Hd2.
-  destruct (positions_of Evo (lw_geom Ld) (flattenF dwells)) as [ps1|e1] eqn:P1.
-  2:{ destruct (Hk Ld eq_refl) as [[ps P]|[e2 P2]]; [congruence|].
-      rewrite P2. rewrite (positions_of_err Evo _ _ _ ltac:(discriminate) P1).
-      rewrite (positions_of_err Fluent _ _ _ ltac:(discriminate) P2).
-      destruct xv as [q| | |]; try (apply osim_same; exact H).
-      destruct (Qgtb q (w_max (st_wl s1))); apply osim_same; exact H. }
-  destruct (positions_of_evo_ok _ _ _ P1) as (ps2 & P2 & L1 & L2 & Peq).
+  destruct (existsb (fun x => match lw_index Ld x with None => true | Some _ => false end) (flattenF dwells))
+    eqn:Eu.
+  { destruct xv as [q| | |]; try (apply osim_same; exact H).
+    destruct (Qgtb q (w_max (st_wl s1))); apply osim_same; exact H. }
+  assert (Hk : forall w, In w (flattenF dwells) -> well_index (lw_geom Ld) w <> None).
+  { intros w Hin. destruct (lw_index Ld w) as [i|] eqn:Ei; [eapply lw_index_known; exact Ei|].
+    assert (Ht : existsb (fun x => match lw_index Ld x with None => true | Some _ => false end)
+                         (flattenF dwells) = true)
+      by (apply existsb_exists; exists w; split; [exact Hin|rewrite Ei; reflexivity]).
+    congruence. }
+  destruct (positions_of_known (lw_geom Ld) (flattenF dwells) Hk)
+    as (ps1 & ps2 & P1 & P2 & L1 & L2 & Peq).
+  rewrite P1.
   assert (Hdst : T (lw_name Ld) = true \/ ps1 = ps2).
   { destruct (is_trough (lw_geom Ld)) eqn:Et; [left|right; apply Peq; reflexivity].
     exact (T_cover _ _ _ _ _ H ELd eq_refl Et). }
@@ -1085,17 +1106,17 @@ Proof.
   apply osim_same. eapply ssim_set_lw; eassumption.
 Qed.
 
-Lemma step_sim s1 s2 o : ssim s1 s2 -> dev_indep o -> dist_ids_agree (st_lw s1) o ->
+Lemma step_sim s1 s2 o : ssim s1 s2 -> dev_indep o ->
   osim (step s1 o) (step s2 o).
 Proof.
-  intros H Hi Hk. destruct o; cbn [step]; cbn [dev_indep dist_ids_agree] in Hi, Hk; try contradiction.
+  intros H Hi. destruct o; cbn [step]; cbn [dev_indep] in Hi; try contradiction.
   - apply on_lw_sim; [exact H|]. intro L. apply add_lsig.
   - apply on_lw_sim; [exact H|]. intro L. apply remove_lsig.
   - apply on_lw_sim; [exact H|]. intro L. apply condense_log_lsig.
   - apply aspirate_sim. exact H.
   - apply dispense_sim. exact H.
   - apply transfer_sim; assumption.
-  - apply distribute_sim; assumption.
+  - apply distribute_sim. exact H.
   - apply on_wl_sim; [exact H|]. intros w1 w2 Hw. apply comment_sim. exact Hw.
   - apply on_wl_sim; [exact H|]. intros w1 w2 Hw. apply wash_sim. exact Hw.
   - apply on_wl_sim; [exact H|]. exact decontaminate_sim.
@@ -1107,30 +1128,14 @@ Proof.
   - apply on_wl_sim; [exact H|]. intros w1 w2 Hw. apply reagent_distribution_same. exact Hw.
 Qed.
 
-(** [dist_ids_agree] only looks at the geometries *)
-Lemma dist_ids_agree_sig l l' o : map lsig l = map lsig l' -> dist_ids_agree l o -> dist_ids_agree l' o.
-Proof.
-  intros Hs Hk. destruct o; cbn [dist_ids_agree] in *; try exact I.
-  intros Ld' Hn.
-  pose proof (nth_error_map lsig kd l) as M1. pose proof (nth_error_map lsig kd l') as M2.
-  rewrite Hs, M2, Hn in M1. cbn [option_map] in M1.
-  destruct (nth_error l kd) as [Ld|] eqn:E; cbn [option_map] in M1; [|discriminate].
-  injection M1 as Mn Mg. rewrite Mg. apply (Hk Ld eq_refl).
-Qed.
-
 Lemma run_sim ops : forall s1 s2, ssim s1 s2 -> Forall dev_indep ops ->
-  Forall (dist_ids_agree (st_lw s1)) ops ->
   ssim (fst (run s1 ops)) (fst (run s2 ops)) /\ snd (run s1 ops) = snd (run s2 ops).
 Proof.
-  induction ops as [|o r IH]; intros s1 s2 H Hi Hk; cbn [run]; [split; [exact H|reflexivity]|].
-  inversion Hi as [|o' r' Hi1 Hi2]; subst. inversion Hk as [|o' r' Hk1 Hk2]; subst.
-  destruct (step_sim s1 s2 o H Hi1 Hk1) as [Hs He].
+  induction ops as [|o r IH]; intros s1 s2 H Hi; cbn [run]; [split; [exact H|reflexivity]|].
+  inversion Hi as [|o' r' Hi1 Hi2]; subst.
+  destruct (step_sim s1 s2 o H Hi1) as [Hs He].
   destruct (step s1 o) as [s1' e1], (step s2 o) as [s2' e2]. cbn [fst snd] in Hs, He. subst e2.
-  assert (Hk' : Forall (dist_ids_agree (st_lw s1')) r).
-  { pose proof H as (_ & HS1 & _). pose proof Hs as (_ & HS2 & _).
-    eapply Forall_impl; [|exact Hk2]. intros o' Ho'. eapply dist_ids_agree_sig; [|exact Ho'].
-    rewrite HS1, HS2. reflexivity. }
-  destruct (IH s1' s2' Hs Hi2 Hk') as [Hr He].
+  destruct (IH s1' s2' Hs Hi2) as [Hr He].
   destruct (run s1' r) as [s1'' es1], (run s2' r) as [s2'' es2]. cbn [fst snd] in *.
   split; [exact Hr|congruence].
 Qed.
@@ -1173,14 +1178,6 @@ Proof.
     + cbn [andb orb]. apply IH; assumption.
 Qed.
 
-Lemma dist_ids_known_agree lws o : dist_ids_known lws o -> dist_ids_agree lws o.
-Proof.
-  destruct o; cbn [dist_ids_known dist_ids_agree]; try (intro; exact I).
-  intros Hk Ld HLd. left.
-  destruct (positions_of_known (lw_geom Ld) (flattenF dwells) (Hk Ld HLd)) as (ps1 & _ & P1 & _).
-  exists ps1. exact P1.
-Qed.
-
 Lemma state_sim_ssim s1 s2 : state_sim s1 s2 ->
   ssim (troughs_of (st_lw s1)) (map lsig (st_lw s1)) s1 s2.
 Proof.
@@ -1194,23 +1191,22 @@ Proof.
   intros n Hn. rewrite <- Hn. apply troughs_of_sig. exact HS.
 Qed.
 
-Lemma step_state_sim s1 s2 o : state_sim s1 s2 -> dev_indep o -> dist_ids_agree (st_lw s1) o ->
+Lemma step_state_sim s1 s2 o : state_sim s1 s2 -> dev_indep o ->
   let '(s1', e1) := step s1 o in let '(s2', e2) := step s2 o in
   state_sim s1' s2' /\ e1 = e2 /\ map lsig (st_lw s1') = map lsig (st_lw s1).
 Proof.
-  intros H Hi Hk.
-  destruct (step_sim _ _ (troughs_of_cover (st_lw s1)) s1 s2 o (state_sim_ssim _ _ H) Hi Hk) as [Hs He].
+  intros H Hi.
+  destruct (step_sim _ _ (troughs_of_cover (st_lw s1)) s1 s2 o (state_sim_ssim _ _ H) Hi) as [Hs He].
   destruct (step s1 o) as [s1' e1], (step s2 o) as [s2' e2]. cbn [fst snd] in Hs, He.
   split; [eapply ssim_state_sim; exact Hs|]. split; [exact He|]. apply Hs.
 Qed.
 
 Lemma run_state_sim ops s1 s2 : state_sim s1 s2 -> Forall dev_indep ops ->
-  Forall (dist_ids_agree (st_lw s1)) ops ->
   let '(s1', es1) := run s1 ops in let '(s2', es2) := run s2 ops in
   state_sim s1' s2' /\ es1 = es2 /\ map lsig (st_lw s1') = map lsig (st_lw s1).
 Proof.
-  intros H Hi Hk.
-  destruct (run_sim _ _ (troughs_of_cover (st_lw s1)) ops s1 s2 (state_sim_ssim _ _ H) Hi Hk) as [Hs He].
+  intros H Hi.
+  destruct (run_sim _ _ (troughs_of_cover (st_lw s1)) ops s1 s2 (state_sim_ssim _ _ H) Hi) as [Hs He].
   destruct (run s1 ops) as [s1' es1], (run s2 ops) as [s2' es2]. cbn [fst snd] in Hs, He.
   split; [eapply ssim_state_sim; exact Hs|]. split; [exact He|]. apply Hs.
 Qed.
@@ -1244,13 +1240,12 @@ Proof.
 Qed.
 
 Lemma run_no_trough_identical ops s1 s2 : state_sim s1 s2 -> Forall dev_indep ops ->
-  Forall (dist_ids_agree (st_lw s1)) ops ->
   (forall L, In L (st_lw s1) -> is_trough (lw_geom L) = false) ->
   w_recs (st_wl (fst (run s1 ops))) = w_recs (st_wl (fst (run s2 ops))) /\
   st_lw (fst (run s1 ops)) = st_lw (fst (run s2 ops)) /\
   snd (run s1 ops) = snd (run s2 ops).
 Proof.
-  intros H Hi Hk Hn. pose proof (run_state_sim ops s1 s2 H Hi Hk) as HR.
+  intros H Hi Hn. pose proof (run_state_sim ops s1 s2 H Hi) as HR.
   destruct (run s1 ops) as [s1' es1], (run s2 ops) as [s2' es2]. cbn [fst snd].
   destruct HR as (Hs & He & Hsig). split; [|split; [apply Hs|exact He]].
   apply no_trough_identical; [exact Hs|]. eapply no_trough_sig; [symmetry; exact Hsig|exact Hn].
@@ -1258,16 +1253,14 @@ Qed.
 
 (** from the two empty worklists: equal labware, equal outcomes, records related w.r.t. the troughs of
     the initial labware list *)
-Lemma run_init_sim lws m a d ops : Forall dev_indep ops -> Forall (dist_ids_known lws) ops ->
+Lemma run_init_sim lws m a d ops : Forall dev_indep ops ->
   let r1 := run {| st_lw := lws; st_wl := init_wl Evo m a d |} ops in
   let r2 := run {| st_lw := lws; st_wl := init_wl Fluent m a d |} ops in
   st_lw (fst r1) = st_lw (fst r2) /\ snd r1 = snd r2 /\
   Forall2 (rec_sim (troughs_of lws)) (w_recs (st_wl (fst r1))) (w_recs (st_wl (fst r2))).
 Proof.
-  intros Hi Hk. cbv zeta.
-  assert (Hk' : Forall (dist_ids_agree lws) ops)
-    by (eapply Forall_impl; [|exact Hk]; intros o Ho; apply dist_ids_known_agree; exact Ho).
-  pose proof (run_state_sim ops _ _ (init_state_sim lws m a d) Hi Hk') as HR.
+  intro Hi. cbv zeta.
+  pose proof (run_state_sim ops _ _ (init_state_sim lws m a d) Hi) as HR.
   destruct (run {| st_lw := lws; st_wl := init_wl Evo m a d |} ops) as [s1' es1],
            (run {| st_lw := lws; st_wl := init_wl Fluent m a d |} ops) as [s2' es2].
   cbn [fst snd st_lw] in *. destruct HR as (Hs & He & Hsig).
@@ -1317,29 +1310,14 @@ Qed.
 Lemma ex16_hyps :
   state_sim (ex16_state Evo) (ex16_state Fluent) /\
   Forall dev_indep ex16_prog /\
-  Forall (dist_ids_known (st_lw (ex16_state Evo))) ex16_prog /\
   wf_state (ex16_state Evo) /\ NoDup (map lw_name (st_lw (ex16_state Evo))).
 Proof.
-  split; [apply init_state_sim|]. split; [|split; [|split; [apply ex16_wf|]]].
+  split; [apply init_state_sim|]. split; [|split; [apply ex16_wf|]].
   - repeat constructor. discriminate.
-  - repeat constructor. intros Ld HLd w Hw. cbn in HLd. injection HLd as <-.
-    destruct Hw as [<-|[<-|[]]]; vm_compute; discriminate.
   - cbn. repeat constructor; cbn; intuition discriminate.
 Qed.
 
-(** a destination id that is no id of the destination labware: the EVO numbering refuses it before any
-    effect, the Fluent numbering accepts it (first character only) and the call fails later, after the
-    source volume has been removed (first example) or with another error class (second example) *)
-Lemma distribute_unknown_id_refuted :
-  exists s1 s2 o o', state_sim s1 s2 /\ wf_state s1 /\ dev_indep o /\ dev_indep o' /\
-    snd (step s1 o) = Some EReject /\ snd (step s2 o) = Some EReject /\
-    fst (step s1 o) = s1 /\
-    map lw_vols (st_lw (fst (step s2 o))) <> map lw_vols (st_lw s2) /\
-    snd (step s1 o') = Some EReject /\ snd (step s2 o') = Some EUnderflow.
-Proof.
-  exists (ex16_state Evo), (ex16_state Fluent),
-         (ODistribute 0 1 (A1 ["AB01"]) (ex16_dist 20)),
-         (ODistribute 0 1 (A1 ("AB01" :: repeat "A01" 45)) (ex16_dist 90)).
-  split; [apply init_state_sim|]. split; [apply ex16_wf|]. split; [exact I|]. split; [exact I|].
-  repeat split; try (vm_compute; reflexivity). vm_compute. discriminate.
-Qed.
+(** destination ids that are no ids of the destination labware (accepted by the Fluent numbering,
+    refused by the EVO numbering) *)
+Definition ex16_unknown_1 : op := ODistribute 0 1 (A1 ["AB01"]) (ex16_dist 20).
+Definition ex16_unknown_2 : op := ODistribute 0 1 (A1 ("AB01" :: repeat "A01" 45)) (ex16_dist 90).
